@@ -157,6 +157,7 @@ let eval_stream (stream : string) (case : string) (impl : string) : verdict =
     let ok = impl <> "" && List.for_all (fun x -> x = "200") (split_on ',' impl) in
     { model = (if ok then impl else "all 200"); fails = (if ok then [] else [("C13", "-")]) }
   | "segpair" -> let (model, fails) = Conn_o.eval_segpair case impl in { model; fails }
+  | "connpipe" -> let (model, fails) = Conn_o.eval_pipe case impl in { model; fails }
   | "readloop" -> let (model, fails) = Conn_o.eval_readloop case impl in { model; fails }
   | "conn05" -> let (model, fails) = Conn_o.eval ["C05"] case impl in { model; fails }
   | "conn07" -> let (model, fails) = Conn_o.eval ["C07"] case impl in { model; fails }
@@ -169,6 +170,10 @@ let eval_stream (stream : string) (case : string) (impl : string) : verdict =
     (* C10 in every serve mode *)
     let (model, fails) = Modes_o.eval case impl in
     { model; fails = List.filter_map (fun (p, k) -> if p = "C17" then Some ("C10", k) else None) fails }
+  | "modes03" ->
+    (* C03 in every serve mode: the outcome for a head does not depend on how its bytes were segmented, nor on the mode *)
+    let (model, fails) = Modes_o.eval case impl in
+    { model; fails = List.filter_map (fun (p, k) -> if p = "C17" then Some ("C03", k) else None) fails }
   | "modes09" ->
     (* C09 in every serve mode: the transcripts of the three modes must be the model's *)
     let (model, fails) = Modes_o.eval case impl in
